@@ -77,11 +77,11 @@ func (f *File) Desc() map[string]interface{} {
 
 // World is source node + node under test + files.
 type World struct {
-	Src   *mininode.Node
-	N     *mininode.Node
-	Files []*File
-	byKey map[string]*File
-	seq   int
+	Src       *mininode.Node
+	N         *mininode.Node
+	Files     []*File
+	byKey     map[string]*File
+	seq       int
 	opts      mininode.Options
 	fault     *vdb.Fault
 	faultName string
@@ -417,7 +417,11 @@ func ParkedCollect(n *mininode.Node, point string, during func(), fail func(stri
 		close(reached)
 		<-release
 	}
-	if point == "candidate" {
+	if point == "delfile" {
+		// the moment the first candidate is handed to chunkinfo for deletion
+		n.SetBeforeDelFile(func(boson.Address) { park() })
+		defer n.SetBeforeDelFile(nil)
+	} else if point == "candidate" {
 		verifhook.Set("localstore.gc.candidate", func(interface{}) { park() })
 		defer verifhook.Set("localstore.gc.candidate", nil)
 	} else {
